@@ -281,7 +281,7 @@ def main():
                 'constructs, and callbacks that refuse data after N bytes. A case is one history; distinct = distinct multiset of operation kinds.')
     chk.assumptions = ['a newly created XalanTransformer in the same process is the reference', 'hook H2 (XalanTransformer::verifSnapshot, 32 stack sizes) is compared with its idle value after every transformation', 'install / uninstall of external functions is not driven (the driver has no such command)']
     chk.ensure(FLAVOUR, 'xvdrv')
-    n = 3000 if chk.tier == 'quick' else 40000
+    n = 3000 if chk.tier == 'quick' else 200000
     chk.run_cases('c06', 'case', range(n))
     chk.finish(min_nontrivial=100, required_stats=('identical_outputs', 'failures_followed', 'status_fail', 'status_ok', 'snapshots_compared'))
 
